@@ -53,7 +53,7 @@ mod verif_c16_receiving {
         // FINDING C16.receiving.poll.pending_registers_callers_waker: `poll` ignores its Context (`_cx`);
         // from `Pending` (and from `Waiting(other task)`) it returns Poll::Pending WITHOUT storing the
         // caller's waker.  Excluded here, pinned in `poll_pending_registers_waker_finding`.
-        kani::assume(old != 0 && old != 2);
+        // (repaired in /repo by the fix commit b686c82: the region is no longer excluded)
         let w = a.waker();
         let mut cx = Context::from_waker(&w);
         let r = Pin::new(&mut st).poll(&mut cx);
@@ -105,7 +105,7 @@ mod verif_c16_receiving {
         // FINDING C16.receiving.recv_frame.keeps_*: `match mem::take(self) { .., _ => () }` leaves the
         // default (`Pending`) behind for Rcvd / Read / Reset: an undelivered frame is dropped and a reset is
         // forgotten.  Excluded here, pinned in `recv_frame_forgets_state_finding`.
-        kani::assume(old <= 2);
+        // (repaired in /repo by the fix commit b686c82: the region is no longer excluded)
         let f: u8 = kani::any();
         st.recv_frame(f);
         match old {
